@@ -82,6 +82,8 @@ end dict
   simp only [St.h, St.setH, dget_set]
   by_cases h : g = g' <;> simp [h]
 
+@[simp] theorem failing_setH (st : St) (g : HId) (n : HNode) : (st.setH g n).failing = st.failing := rfl
+@[simp] theorem failing_setM (st : St) (i : MId) (n : MapNode) : (st.setM i n).failing = st.failing := rfl
 @[simp] theorem m_setH (st : St) (g : HId) (n : HNode) (i : MId) : (st.setH g n).m i = st.m i := rfl
 @[simp] theorem s_setH (st : St) (g : HId) (n : HNode) (s : Nat) : (st.setH g n).s s = st.s s := rfl
 @[simp] theorem next_setH (st : St) (g : HId) (n : HNode) : (st.setH g n).next = st.next := rfl
@@ -95,6 +97,8 @@ end dict
 @[simp] theorem h_bump (st : St) (g : HId) : st.bump.h g = st.h g := rfl
 @[simp] theorem next_bump (st : St) : st.bump.next = st.next + 1 := rfl
 
+@[simp] theorem m_initF (F : HId → Nat → Bool) (i : MId) : (init F).m i = {} := rfl
+@[simp] theorem h_initF (F : HId → Nat → Bool) (g : HId) : (init F).h g = {} := rfl
 @[simp] theorem m_init (i : MId) : ({} : St).m i = {} := rfl
 @[simp] theorem h_init (g : HId) : ({} : St).h g = {} := rfl
 
